@@ -350,6 +350,49 @@ pub fn spaces(tier: Tier) -> Vec<Space<'static>> {
                 }
             }
         }));
+        let d4 = docs.clone();
+        sp.push(Space::new("equality-b64xb64 through documents (contains on encoded numbers, bare and in an array, both directions)", n as u64, move |i, acc| {
+            let a = b64[i as usize];
+            for (j, b) in b64.iter().enumerate() {
+                acc.eval();
+                let exp = num_cmp(&a, b) == Ordering::Equal;
+                let r = guard(|| (jsonb::contains(&d4[i as usize].0, &d4[j].0), jsonb::contains(&d4[i as usize].1, &d4[j].1), jsonb::contains(&d4[i as usize].1, &d4[j].0)));
+                match r {
+                    Ok((x, y, z)) if x == exp && y == exp && z == exp => {}
+                    other => acc.vio("order:contains-on-number-documents-is-not-value-equality", || json!({"a": format!("{:?}", a), "b": format!("{:?}", b), "expected": exp, "observed": format!("{:?}", other.map_err(|p| panic_class(&p)))})),
+                }
+            }
+        }));
+        sp.push(Space::new("codec-b64 through the From conversions into Value (u64, i64, f64, f32)", n as u64, move |i, acc| {
+            let nmod = b64[i as usize];
+            acc.eval();
+            let (v, want): (jsonb::Value, RNum) = match nmod {
+                RNum::U(u) => (jsonb::Value::from(u), nmod),
+                RNum::I(x) => (jsonb::Value::from(x), nmod),
+                RNum::F(bits) => (jsonb::Value::from(f64::from_bits(bits)), nmod),
+            };
+            let got = crate::conv::from_value_raw(&v);
+            let ok = match (&got, want) {
+                (RVal::Num(RNum::F(a)), RNum::F(b)) => *a == b || (f64::from_bits(*a).is_nan() && f64::from_bits(b).is_nan()),
+                (RVal::Num(g), w) => *g == w,
+                _ => false,
+            };
+            if !ok {
+                acc.vio("codec:From-conversion-changes-the-number", || json!({"number": format!("{:?}", nmod), "value": format!("{:?}", got)}));
+            }
+            // f32: every B64 float that is exactly an f32
+            if let RNum::F(bits) = nmod {
+                let f = f64::from_bits(bits);
+                let g = f as f32;
+                if (g as f64).to_bits() == bits || f.is_nan() {
+                    let got = crate::conv::from_value_raw(&jsonb::Value::from(g));
+                    let same = matches!(&got, RVal::Num(RNum::F(a)) if *a == bits || (f64::from_bits(*a).is_nan() && f.is_nan()));
+                    if !same {
+                        acc.vio("codec:From-conversion-changes-the-number", || json!({"number": format!("{:?} as f32", nmod), "value": format!("{:?}", got)}));
+                    }
+                }
+            }
+        }));
         sp.push(Space::new("codec-b64 through the Value encoder and from_slice", n as u64, move |i, acc| {
             let nmod = b64[i as usize];
             acc.eval();
